@@ -431,6 +431,24 @@ func runC15(c *Ctx) {
 			holders[o.Func] = true
 		}
 	}
+	// ... and the module functions they call (an error constructor used on the failure path, say), two levels deep
+	for _, fn := range c.LibFuncs() {
+		if !holders[FuncName(fn)] {
+			continue
+		}
+		var mark func(f *ssa.Function, d int)
+		mark = func(f *ssa.Function, d int) {
+			eachInstr(f, func(in ssa.Instruction) {
+				if cal := staticCallee(in); cal != nil && inModule(cal) && cal.Blocks != nil && !holders[FuncName(cal)] {
+					holders[FuncName(cal)] = true
+					if d < 2 {
+						mark(cal, d+1)
+					}
+				}
+			})
+		}
+		mark(fn, 0)
+	}
 	importPremises(c, "W2", "no-panic premise ", "a panic on the way out replaces the error the caller should get", func(o *Ob) bool { return o.Rule == "R09.P" && holders[o.Func] }, func() { runC09(c) })
 	// W0: the five renderers
 	n := 0
